@@ -66,6 +66,12 @@ def jobs(tier, seed):
                 C.stud((3, 5), autos=['ANTE_POSTING', 'BET_COLLECTION', 'HAND_KILLING', 'CHIPS_PUSHING', 'CHIPS_PULLING'])]:
         out.append(_j('explicit-unknown-mix', cfg, warn='error',
                       opts={'deal': 'mix', 'raises': 'min', 'show': (None,)}, dev_bound=k + 1))
+    # manual showdowns in cash games: partial shows (some hole cards stay face down) before and on the last street
+    manual_show = ['ANTE_POSTING', 'BET_COLLECTION', 'BLIND_OR_STRADDLE_POSTING', 'CARD_BURNING', 'HOLE_DEALING', 'BOARD_DEALING',
+                   'RUNOUT_COUNT_SELECTION', 'HAND_KILLING', 'CHIPS_PUSHING', 'CHIPS_PULLING']
+    for cfg in [C.nt((2, 3), mode='cash', autos=manual_show), C.nt((3, 5, 4), mode='cash', autos=manual_show),
+                C.nt((3, 2), mode='cash', autos=manual_show, game='PotLimitOmahaHoldem', boards=2)]:
+        out.append(_j('cash-manual-partial-shows', cfg, opts={'raises': 'minmax', 'show': (None, True, False, 'partial')}, dev_bound=k + 2))
     for j in out:
         j.setdefault('state_cap', 600000 if th else 80000)
         j.setdefault('time_cap', 700 if th else 60)
